@@ -12,10 +12,16 @@ Implementation-level oracle (model-free):
     content untouched; when it does not work: nothing is added anywhere,
   * strace: one write(2) per log line on an O_APPEND descriptor (also for lines of 300 kB),
   * 2..32 concurrent hook processes x rounds appending to one log: every line parses, the count matches,
-    each process's lines are in its own order.
+    each process's lines are in its own order,
+  * several decisions in ONE process (harness/c18_worker.py runs main() repeatedly): every ordered pair of log
+    configurations (none / file with log-full / another file / the same file without log-full / /dev/full / NUL path /
+    missing directories / a directory / log-full alone) and random histories of 2..10 runs over all verdict classes and
+    hosts: what each run prints and what it appends to which file is exactly what the same run does in a fresh process.
 Correspondence: Model/Logging.v `hook_run` on the same scenario (fault table derived from the fault
 kind) must predict stdout shape, exit, the decision-log lines byte for byte (given the timestamp), the
-approvals-log records, the fallback records on stderr and the number of logging tracebacks."""
+approvals-log records, the fallback records on stderr and the number of logging tracebacks; Model/Cache.v `effects`
+on the in-process histories must predict, per run, the file that grows and whether the line carries the command
+(C15_history_local: a function of the run's own configuration and faults, whatever the process did before)."""
 from __future__ import annotations
 
 import concurrent.futures as cf
@@ -65,7 +71,7 @@ MCP_TOOLS = {"mcp_allow": "mcp__srv__get_issue", "mcp_deny": "mcp__srv__delete",
 MCP_PATTERN = {"mcp_allow": "mcp__srv__get*", "mcp_deny": "mcp__srv__del*", "mcp_ask": "mcp__srv__put*"}
 MODES = ["claude", "gemini", "cursor", "flag-claude", "flag-gemini", "flag-cursor"]
 
-A_KINDS = ["ok", "fresh_home", "home_is_file", "dotdir_is_file", "log_is_dir", "devfull", "home_unset"]
+A_KINDS = ["ok", "fresh_home", "home_missing", "home_is_file", "dotdir_is_file", "log_is_dir", "devfull", "home_unset"]
 D_KINDS = ["none", "ok", "ok_full", "full_only", "seeded", "seeded_full", "missing_dir", "tilde", "parent_is_file",
            "path_is_dir", "devfull", "nul", "nosuchuser", "ok_then_nosuchuser", "loop", "toolong", "two_logs"]
 D_WORKING = {"ok", "ok_full", "seeded", "seeded_full", "missing_dir", "tilde", "ok_then_nosuchuser", "two_logs"}
@@ -117,6 +123,8 @@ def lay_out(sc, d):
         with open(home, "w") as f:
             f.write("")
         applog = None
+    elif a == "home_missing":
+        pass                 # HOME names a directory that does not exist yet: setup_logging creates it (mkdir parents)
     else:
         os.makedirs(home)
         if a == "ok":
@@ -162,7 +170,7 @@ def lay_out(sc, d):
         lines.append(f"set log {target}")
         events.append(["setlog", target])
     elif k == "tilde":
-        if a in ("ok", "fresh_home", "log_is_dir", "devfull", "dotdir_is_file"):
+        if a in ("ok", "fresh_home", "home_missing", "log_is_dir", "devfull", "dotdir_is_file"):
             target = os.path.join(home, "dl", "audit.log")
         lines.append("set log ~/dl/audit.log")
         events.append(["setlog", "~/dl/audit.log"])
@@ -465,7 +473,9 @@ def check_one(out, model, sc, res, base, xcheck):
     if sc["D"] not in D_WORKING or injected_dec or not info["target"]:
         # the destination is not a readable regular file: the model must say nothing was appended
         impl["declog"] = []
-    if res["applog"] is not None and sc["A"] in ("ok", "fresh_home"):
+    if sc["A"] == "home_missing" and res["applog"] is None:
+        res["applog"] = ""        # the model says the log is written: its absence must show as a difference
+    if res["applog"] is not None and sc["A"] in ("ok", "fresh_home", "home_missing"):
         impl["applog"] = LEVEL_RE.findall(res["applog"])
         mod["applog"] = list(m_applog)
     if impl != mod:
@@ -588,6 +598,288 @@ def utf16_units(s):
     return "".join(chr(u) for u in out)
 
 
+# ---------------------------------------------------------------- several decisions in ONE process
+# (library use / a test harness: the dimension the one-shot hook never shows).  What a decision appends to the
+# decision log - where, how many lines, with or without the command text - and what it prints must be what the
+# same decision does in a fresh process: nothing may be carried over from the decisions, configurations and
+# failed writes before it (log-full of an earlier config, an earlier destination, a disabled flag, an open handle).
+WORKER18 = os.path.join(os.path.dirname(os.path.abspath(__file__)), "c18_worker.py")
+IP_KINDS = ["none", "a_full", "b_plain", "a_plain", "devfull", "nul", "missing_full", "isdir", "full_only"]
+IP_WATCH = ["a.log", "b.log", os.path.join("m1", "m2", "c.log")]
+IP_CLASSES = ["allow", "ask", "deny", "bypass", "mcp_allow", "mcp_deny", "mcp_none", "mcp_bypass", "not_shell", "bad_json", "post", "raise"]
+IP_DECIDING = ["allow", "ask", "deny", "bypass", "mcp_allow", "mcp_deny", "mcp_bypass"]
+
+
+def ip_spec(kind, logs):
+    """(config lines, model log spec or None, configure fails, write fails)"""
+    return {
+        "none": ([], None, False, False),
+        "a_full": ([f"set log {logs}/a.log", "set log-full"], [f"{logs}/a.log", True], False, False),
+        "b_plain": ([f"set log {logs}/b.log"], [f"{logs}/b.log", False], False, False),
+        "a_plain": ([f"set log {logs}/a.log"], [f"{logs}/a.log", False], False, False),
+        "devfull": (["set log /dev/full", "set log-full"], ["/dev/full", True], False, True),
+        "nul": ([f"set log {logs}/a\0b/x.log"], [f"{logs}/a\0b/x.log", False], True, False),
+        "missing_full": ([f"set log {logs}/m1/m2/c.log", "set log-full"], [f"{logs}/m1/m2/c.log", True], False, False),
+        "isdir": ([f"set log {logs}/adir"], [f"{logs}/adir", False], False, True),
+        "full_only": (["set log-full"], None, False, False),
+    }[kind]
+
+
+def ip_world(root):
+    d = tempfile.mkdtemp(dir=root)
+    home = os.path.join(d, "home")
+    logs = os.path.join(d, "logs")
+    os.makedirs(os.path.join(home, ".claude"))
+    os.makedirs(os.path.join(logs, "adir"))
+    cwds = {}
+    for k in IP_KINDS:
+        c = os.path.join(d, "cwd_" + k)
+        os.makedirs(c)
+        with open(os.path.join(c, ".dippy"), "w") as f:
+            f.write("\n".join(BASE_CFG + ip_spec(k, logs)[0]) + "\n")
+        cwds[k] = c
+    return {"dir": d, "home": home, "logs": logs, "cwds": cwds}
+
+
+def ip_norm(growth):
+    """[[file index, complete?, [line without its timestamp...]]...]"""
+    out = []
+    for i, a, b, text in growth:
+        lines = []
+        for l in text.split("\n")[:-1] if text.endswith("\n") else text.split("\n"):
+            try:
+                j = json.loads(l)
+                j.pop("ts", None)
+                lines.append(json.dumps(j))
+            except ValueError:
+                lines.append("RAW:" + l)
+        out.append([IP_WATCH[i], text.endswith("\n") and b > a, lines])
+    return out
+
+
+def ip_run(root, steps, argv=(), fresh=False):
+    """the steps as main() runs of one process, in a world of their own -> [[stdout, normalised growth]...];
+    fresh: each step in its own child forked from a process that has imported dippy and decided nothing"""
+    w = ip_world(root)
+    try:
+        final = [{"k": "main", "stdin": build_input(st["cls"], st["mode"], w["cwds"][st["K"]])} for st in steps]
+        job = {"src": os.path.join(lib.REPO, "src"), "argv": list(argv), "history": [], "final": final, "snapshot": False,
+               "watch": [os.path.join(w["logs"], x) for x in IP_WATCH]}
+        if fresh:
+            job = {"src": job["src"], "argv": job["argv"], "forkpool": final, "watch": job["watch"]}
+        env = {"PATH": "/usr/bin:/bin", "HOME": w["home"], "PYTHONHASHSEED": "0"}
+        p = subprocess.run([PY, WORKER18], input=json.dumps(job).encode(), capture_output=True, env=env, cwd=w["home"], timeout=300)
+        if p.returncode != 0:
+            raise RuntimeError("worker failed: " + p.stderr.decode("utf-8", "replace")[-1500:])
+        r = json.loads(p.stdout.decode())
+        pairs = r["answers"] if fresh else zip(r["answers"], r["growth"])
+        return [[a.replace(w["dir"], "{W}"), ip_norm(g)] for a, g in pairs], w["logs"]
+    finally:
+        shutil.rmtree(w["dir"], ignore_errors=True)
+
+
+def ip_model_queries(st, logs, stdout):
+    spec, cfail, dfail = ip_spec(st["K"], logs)[1:]
+    log = [spec] if spec else []
+    cls = st["cls"]
+    host = st["mode"]
+    if cls == "bad_json":
+        return []
+    det = host if cls in ("allow", "ask", "deny", "bypass", "post", "raise") else "claude"
+    if cls in ("allow", "ask", "deny"):
+        o = parse_stdout(stdout)
+        v = o[0][2] if o and o[0][0] == "env" else "ask"
+        return [["main", det, [], v, "", log, cfail, dfail]]
+    qs = [["setmode", det], ["configure", log, cfail]]
+    if cls in ("bypass", "mcp_allow", "mcp_deny", "mcp_bypass"):
+        qs.append(["log_decision", dfail])
+    return qs
+
+
+def direct_calls(out, model, root, tier, rng, xcheck):
+    """config.configure_logging / config.log_decision called directly in one process (harness/c18_worker.py):
+    (i) log_decision as a function: every subset of its optional arguments x log-full x awkward texts: the line that
+        appears is Logging.jline (Logging.entry ...) of the model, byte for byte (given the timestamp);
+    (ii) the disabled flag with a fault that comes and goes (a directory in the way of the log file, removed later):
+        per call, a line appears exactly where Cache.effects says one does - a failure silences the calls after it
+        until the next configure_logging, also when the sink works again."""
+    texts = ["ls -la", 'say "hi"', "a\\b", "tab\there", "nl\nx", "é\U0001f424", "\ud800", "", "}{", "x" * 300]
+    d = tempfile.mkdtemp(dir=root)
+    home = os.path.join(d, "home")
+    logs = os.path.join(d, "logs")
+    os.makedirs(home)
+    os.makedirs(logs)
+    env = {"PATH": "/usr/bin:/bin", "HOME": home, "PYTHONHASHSEED": "0"}
+
+    def run(final, watch):
+        job = {"src": os.path.join(lib.REPO, "src"), "argv": [], "history": [], "final": final, "snapshot": False, "watch": watch}
+        p = subprocess.run([PY, WORKER18], input=json.dumps(job).encode("utf-8", "surrogatepass"), capture_output=True, env=env, cwd=home, timeout=300)
+        if p.returncode != 0:
+            raise RuntimeError("worker failed: " + p.stderr.decode("utf-8", "replace")[-1500:])
+        return json.loads(p.stdout.decode())["growth"]
+
+    # (i) the entry as a function
+    calls = []
+    n = 0
+    for full in (True, False):
+        for rule in (None, "R"):
+            for message in (None, "M"):
+                for command in (None, "C"):
+                    for rep in range(1 if tier == "quick" else 6):
+                        t = lambda: texts[rng.randrange(len(texts))]   # noqa: E731
+                        calls.append({"full": full, "decision": rng.choice(["allow", "ask", "deny"]), "cmd": t(),
+                                      "rule": t() if rule else None, "message": t() if message else None,
+                                      "command": t() if command else None})
+                        n += 1
+    final, idx = [], []
+    path = os.path.join(logs, "direct.log")
+    for c in calls:
+        final.append({"k": "configure", "log": path, "full": c["full"]})
+        final.append({"k": "log_call", **{k: c[k] for k in ("decision", "cmd", "rule", "message", "command")}})
+        idx.append(len(final) - 1)
+    growth = run(final, [path])
+    for c, i in zip(calls, idx):
+        out.case("direct:" + json.dumps(c, sort_keys=True))
+        out.count("direct_optional_args", "".join(k[0] for k in ("rule", "message", "command") if c[k] is not None) or "-")
+        g = growth[i]
+        text = g[0][3] if g else ""
+        try:
+            ts = json.loads(text)["ts"]
+        except (ValueError, KeyError):
+            ts = ""
+        if any(0xD800 <= ord(ch) < 0xE000 for k in ("cmd", "rule", "message", "command") if c[k] for ch in c[k]):
+            text = None       # a lone surrogate does not survive the UTF-8 log file; the JSON stream covers the rendering
+        rec = len(xcheck) < 60
+        want = model.call(["log_entry", c["full"], c["decision"], c["cmd"], lib.opt(c["rule"]), lib.opt(c["message"]), lib.opt(c["command"]), ts], record=rec)
+        if rec:
+            xcheck.append((model.last_request, [], want))
+        if text is not None and text != want:
+            out.disagreements.append({"correspondence": "Logging.entry/jline <-> config.log_decision called directly", "call": c, "model": want, "impl": text})
+        if text is not None:
+            keys = list(json.loads(text)) if text else []
+            want_keys = ["decision", "cmd"] + [k for k in ("rule", "message") if c[k] is not None] + \
+                        (["command"] if c["full"] and c["command"] is not None else []) + ["ts"]
+            if keys != want_keys or not text.endswith("\n") or text.count("\n") != 1:
+                out.violations.append({"kind": "log-keys", "what": f"log_decision wrote keys {keys}, documented {want_keys}", "call": c, "line": text,
+                                       "signature_text": "direct-keys:" + json.dumps({k: c[k] is not None for k in ("rule", "message", "command")}) + str(c["full"])})
+    # (ii) a fault that comes and goes
+    call = {"k": "log_call", "decision": "allow", "cmd": "x", "rule": None, "message": None, "command": "x"}
+    scripts = []
+    for full in (True, False):
+        p1 = os.path.join(logs, f"t1_{full}")
+        os.mkdir(p1)
+        scripts.append((p1, [({"k": "configure", "log": p1, "full": full}, ["configure", [[p1, full]], False]),
+                             (call, ["log_decision", True]),                      # a directory is in the way: the write fails
+                             ({"k": "fs", "op": "rmdir", "path": p1}, None),     # the fault goes away
+                             (call, ["log_decision", False]), (call, ["log_decision", False]),   # still silent
+                             ({"k": "configure", "log": p1, "full": full}, ["configure", [[p1, full]], False]),
+                             (call, ["log_decision", False]), (call, ["log_decision", False])]))
+        p2 = os.path.join(logs, f"t2_{full}")
+        scripts.append((p2, [({"k": "configure", "log": p2, "full": full}, ["configure", [[p2, full]], False]),
+                             (call, ["log_decision", False]),
+                             ({"k": "fs", "op": "unlink", "path": p2}, None), ({"k": "fs", "op": "mkdir", "path": p2}, None),
+                             (call, ["log_decision", True]),
+                             ({"k": "fs", "op": "rmdir", "path": p2}, None),
+                             (call, ["log_decision", False]),
+                             ({"k": "configure", "log": None, "full": False}, ["configure", [], False]),
+                             (call, ["log_decision", False]),
+                             ({"k": "configure", "log": p2, "full": not full}, ["configure", [[p2, not full]], False]),
+                             (call, ["log_decision", False])]))
+    for path, script in scripts:
+        growth = run([q for q, _ in script], [path])
+        mq = [m for _, m in script if m is not None]
+        eff = model.call(["cache_effects", [], mq], record=True)
+        xcheck.append((model.last_request, [], eff))
+        it = iter(eff)
+        out.case("direct-transient:" + json.dumps([q for q, _ in script]))
+        out.count("direct_optional_args", "transient-fault script")
+        for (q, m), g in zip(script, growth):
+            e = next(it) if m is not None else []
+            if q["k"] != "log_call":
+                continue
+            wrote = [[x[3].count("\n"), '"command"' in x[3]] for x in g if x[2] > x[1]]
+            want = [[1, e[1] == "1"]] if e else []
+            if wrote != want:
+                out.disagreements.append({"correspondence": "Cache.effects <-> direct log_decision calls around a fault that comes and goes",
+                                          "script": [q for q, _ in script], "at": q, "model": want, "impl": wrote})
+    shutil.rmtree(d, ignore_errors=True)
+
+
+def inproc_histories(out, model, root, tier, rng, xcheck, replay=None):
+    quick = tier == "quick"
+    modes = ["claude", "gemini", "cursor"]
+
+    def classes_for(mode):
+        # (a Cursor-shaped input has no tool_input to be malformed: "raise" is a plain allow there)
+        return IP_CLASSES if mode == "claude" else [c for c in IP_CLASSES if c in SHELL_CLASSES or (c == "raise" and mode == "gemini")]
+
+    hists = []
+    if replay is not None:
+        hists = [replay]
+    else:
+        # every ordered pair of log configurations, a deciding class each, and back to the first
+        n = 0
+        for k1 in IP_KINDS:
+            for k2 in IP_KINDS:
+                for rep in range(1 if quick else 3):
+                    m1, m2 = modes[n % 3], modes[(n // 3) % 3]
+                    c1 = [c for c in IP_DECIDING if c in classes_for(m1)][n % len([c for c in IP_DECIDING if c in classes_for(m1)])]
+                    c2 = [c for c in IP_DECIDING if c in classes_for(m2)][(n // 2) % len([c for c in IP_DECIDING if c in classes_for(m2)])]
+                    n += 1
+                    a, b = {"K": k1, "cls": c1, "mode": m1}, {"K": k2, "cls": c2, "mode": m2}
+                    hists.append([a, b, a])
+        for _ in range(40 if quick else 400):
+            h = []
+            for _ in range(rng.randint(2, 10)):
+                m = rng.choice(modes)
+                h.append({"K": rng.choice(IP_KINDS), "cls": rng.choice(classes_for(m)), "mode": m})
+            hists.append(h)
+    keys = {}
+    for h in hists:
+        for st in h:
+            keys.setdefault(json.dumps(st, sort_keys=True), st)
+    with cf.ThreadPoolExecutor(max_workers=12) as ex:
+        # fresh effects: forked children in 6 worlds; every 10th step also in a really fresh interpreter
+        ks = list(keys)
+        parts = [ks[j::6] for j in range(6)]
+        fresh = {}
+        for part, res in zip(parts, ex.map(lambda part: ip_run(root, [keys[k] for k in part], fresh=True)[0], parts)):
+            fresh.update(zip(part, res))
+        for k, res in zip(ks[::10], ex.map(lambda k: ip_run(root, [keys[k]])[0][0], ks[::10])):
+            if res != fresh[k]:
+                out.violations.append({"kind": "fresh-nondeterministic", "what": "a fresh interpreter and a child forked before any decision differ",
+                                       "inproc": [keys[k]], "a": res, "b": fresh[k], "signature_text": "inproc-fresh:" + k})
+        runs = list(ex.map(lambda h: ip_run(root, h), hists))
+    for h, (res, logs) in zip(hists, runs):
+        out.case("inproc:" + json.dumps(h, sort_keys=True))
+        out.count("inprocess_history_length", str(len(h)) if len(h) <= 3 else "4-10")
+        mq, at = [], []
+        for i, (st, (stdout, growth)) in enumerate(zip(h, res)):
+            out.count("inprocess_step", st["K"] + "/" + ("decides" if st["cls"] in IP_DECIDING else "silent"))
+            f_stdout, f_growth = fresh[json.dumps(st, sort_keys=True)]
+            if stdout != f_stdout or growth != f_growth:
+                what = ("stdout of a decision" if stdout != f_stdout else "what a decision appends to the decision log") + \
+                       " in a process that decided before differs from the same decision in a fresh process"
+                out.violations.append({"kind": "inprocess-history", "what": what, "inproc": h, "step": i, "stdout": stdout, "fresh_stdout": f_stdout,
+                                       "appended": growth, "fresh_appended": f_growth,
+                                       "signature_text": "inproc:" + json.dumps(st, sort_keys=True)})
+            one = ip_model_queries(st, logs, stdout)
+            at.append((len(mq), len(one)))
+            mq += one
+        rec = len(xcheck) < 52 and len(mq) <= 8
+        eff = model.call(["cache_effects", [], mq], record=rec) if mq else []
+        if rec and mq:
+            xcheck.append((model.last_request, [], eff))
+        for st, (stdout, growth), (start, cnt) in zip(h, res, at):
+            want = [e for e in eff[start:start + cnt] if e]
+            shell = st["cls"] in ("allow", "ask", "deny", "bypass")
+            m = [[os.path.relpath(want[0][0], logs), want[0][1] == "1" and shell]] if want else []
+            got = [[f, any('"command"' in l for l in lines)] for f, ok, lines in growth if ok and len(lines) == 1]
+            if m != got or len(got) != len(growth):
+                out.disagreements.append({"correspondence": "Cache.effects <-> lines appended per main() run of one process",
+                                          "history": h, "step": st, "model": m, "impl": growth})
+
+
 def run(tier, seed, replay=None):
     rng = random.Random(seed)
     out = core.Outcome("C15")
@@ -596,17 +888,22 @@ def run(tier, seed, replay=None):
     xcheck = []
     try:
         scenarios = []
-        if replay and replay.get("scenario"):
+        if replay and replay.get("inproc"):
+            inproc_histories(out, model, root, tier, rng, xcheck, replay["inproc"])
+            replay = {"scenario": None, "skip": True}
+        elif replay and replay.get("scenario"):
             scenarios = [replay["scenario"]]
         else:
             quick = tier == "quick"
             # systematic: every verdict class x every fault kind at the approvals sink x at the decision sink (claude)
             for cls in CLASSES:
                 for a in A_KINDS:
-                    if a == "home_unset" and cls not in ("allow", "deny", "mcp_allow", "bypass", "cfg_error", "bad_json"):
+                    if a in ("home_unset", "home_missing") and cls not in ("allow", "deny", "mcp_allow", "bypass", "cfg_error", "bad_json"):
                         continue
                     for dk in D_KINDS:
                         if a == "home_unset" and dk not in ("none", "ok_full", "devfull", "nul"):
+                            continue
+                        if a == "home_missing" and dk not in ("none", "ok_full", "devfull", "nul", "tilde"):
                             continue
                         scenarios.append({"cls": cls, "mode": "claude", "A": a, "D": dk})
             # every mode (auto-detected and by flag) x shell verdict classes x a cross of fault kinds
@@ -678,7 +975,9 @@ def run(tier, seed, replay=None):
                         "declog": (res["declog"] or "")[-200:]})
             check_one(out, model, sc, res, base_res[base_key(sc)], xcheck)
 
-        if not (replay and replay.get("scenario")):
+        if not (replay and (replay.get("scenario") or replay.get("skip"))):
+            inproc_histories(out, model, root, tier, rng, xcheck)
+            direct_calls(out, model, root, tier, rng, xcheck)
             # JSON writer: model jline == json.dumps, model reader == UTF-16 units, python reads it back
             n_json = 300 if tier == "quick" else 5000
             for e in json_cases(rng, n_json):
@@ -728,11 +1027,13 @@ def run(tier, seed, replay=None):
         out.disagreements.append({"correspondence": "extracted OCaml model <-> vm_compute in Coq", "detail": mism[:5]})
     out.extra["rule"] = (
         "systematic: 15 verdict classes (allow/ask/deny/bypass/5 mcp/config error/not-shell/bad JSON/exception/2 PostToolUse) x "
-        "7 approvals-sink states (ok, fresh HOME, HOME is a file, ~/.claude is a file, log path is a directory, /dev/full, HOME unset) x "
+        "8 approvals-sink states (ok, fresh HOME, HOME not yet existing, HOME is a file, ~/.claude is a file, log path is a directory, /dev/full, HOME unset) x "
         "17 decision-sink states (none, ok, log-full, seeded, missing dir, ~, parent is a file, path is a directory, /dev/full, NUL, "
         "~nosuchuser, ok-then-~nosuchuser, symlink loop, name too long, two `set log`) in claude mode; a cross of these for the five other "
         "mode spellings; a config warning variant; injected failure of the k-th operation at each of the 7 sites with each exception "
-        "class; random awkward command texts under log-full; random JSON entries; strace per line size; concurrent appenders. "
+        "class; random awkward command texts under log-full; random JSON entries; strace per line size; concurrent appenders; "
+        "in-process histories: every ordered pair of 9 log configurations (first, second, first again) with a deciding class each and random "
+        "histories of 2..10 main() runs over 12 verdict classes x 3 hosts, each run compared with the same run in a fresh process. "
         "distinct = distinct scenario descriptors; non-trivial = some sink is faulty or some operation is made to fail.  NB the HOME-unset scenarios (24 in quick) make the hook fall back to the password database, i.e. they append a few records to the "
         "approvals log below the real home of the uid running the check; everything else stays in the scratch directory")
     return out
